@@ -42,6 +42,7 @@ type c08Case struct {
 
 var c08Ops = []string{"getstatus", "getrules", "addrule", "deleterule", "deleterules", "set-pid", "set-ratelimit", "set-backloglimit", "set-enabled", "set-immutable", "set-failure", "set-backlogwait"}
 var c08Errnos = []int{0, int(syscall.EPERM), int(syscall.ENOENT), int(syscall.EEXIST), int(syscall.EINVAL), int(syscall.ENOMEM), int(syscall.EBUSY), 4095}
+var c08EventTypes = []uint16{1300, 1305, 1006, 1327, 1005, 1100, 1329, 1112, 1400, 1320, 1807, 2404, 1199, 1299}
 var c08Advs = []string{"foreign-stale", "foreign-future", "foreign-random", "wrong-type-ack", "done-as-ack", "short-ack", "ends-early", "wrong-type-data", "foreign-data"}
 
 func burstSteps(id int) []simkernel.Step {
@@ -129,7 +130,10 @@ func c08Exec(k *c08Case) *c08Outcome {
 			for i := 0; i < u; i++ {
 				// every single receive may fail transiently up to 9 times in a row: also the one that reads an unsolicited event
 				st = append(st, burstSteps(eb)...)
-				st = append(st, simkernel.Step{Dgram: simkernel.Event(uint16(1300+i), fmt.Sprintf("audit(1.000:%d): unsolicited", i))})
+				// any audit record type the kernel multicasts / unicasts to the audit daemon: the old kernel-side
+				// user and login records (1005, 1006) as well as the 11xx-24xx ranges
+				typ := c08EventTypes[(int(k.Seed)+dgIndex*3+i)%len(c08EventTypes)]
+				st = append(st, simkernel.Step{Dgram: simkernel.Event(typ, fmt.Sprintf("audit(1.000:%d): unsolicited", i))})
 			}
 			st = append(st, burstSteps(b)...)
 		}
